@@ -56,7 +56,8 @@ def variant_xmls(xml, rng, polytope_margin):
   prs = [p for p in root.iter("pair")]
   groups = ("size", "mesh", "offset", "margin", "gap", "pair")
   # distinct rows per attribute group (independent, so that the Model fields end up with different leading sizes)
-  P = {"size": [0.1, 0.45, 0.45], "mesh": [0.5, 0.25, 0.25], "offset": [0.2, 0.4, 0.4]}
+  P = {"size": [0.1, 0.45, 0.45], "mesh": [0.3, 0.35, 0.35], "offset": [0.2, 0.4, 0.4]}
+  mesh_walk = {}
   nrow = {k: int(rng.choice([1, 2, 3], p=P.get(k, [0.3, 0.35, 0.35]))) for k in groups}
   rows = {k: [] for k in groups}
   mesh_names = sorted(_col.MESHES)
@@ -68,7 +69,9 @@ def variant_xmls(xml, rng, polytope_margin):
         s0 = np.array([float(v) for v in g.get("size").split()])
         size[name] = _f(s0 * rng.uniform(0.6, 1.5, size=s0.shape))
       if t == "mesh":
-        mesh[name] = mesh_names[int(rng.integers(len(mesh_names)))]
+        if r == 0:
+          mesh_walk[name] = (int(rng.integers(len(mesh_names))), int(rng.choice([1, 3])))
+        mesh[name] = mesh_names[(mesh_walk[name][0] + r * mesh_walk[name][1]) % len(mesh_names)]  # a different mesh in every row
       if t == "plane":
         if rng.random() < 0.7:
           off[name] = (_f([0, 0, rng.uniform(-0.05, 0.05)]), _f(_col.rquat(rng) * 0.15 + np.array([1.0, 0, 0, 0])))
